@@ -355,6 +355,8 @@ pub struct Exec {
     /// for a history that ends with Remount / DropRemount: (status byte at the mount of the session that was ended,
     /// status byte right after the unmount / drop, before the volume is mounted again)
     pub epoch_end_status: Option<(u8, u8)>,
+    /// hidden cursor of every live file handle at the call boundary: (offset, current cluster)
+    pub cursors: [Option<(u32, Option<u32>)>; crate::model::NFH],
     /// node id behind every file-handle slot after each operation (index = operation index)
     pub handle_nids: Vec<[Option<crate::model::Nid>; crate::model::NFH]>,
 }
@@ -1430,6 +1432,12 @@ fn boundary<'a>(fs: &'a Fs, slots: &mut Slots<'a>, cx: &mut RunCtx) {
         observe_aliases(&mut cx.ex.model, &d);
     }
     cx.ex.live_post = live;
+    for (i, f) in slots.files.iter().enumerate() {
+        cx.ex.cursors[i] = f.as_ref().map(|f| {
+            let s = f.verif_state();
+            (s.offset, s.current_cluster)
+        });
+    }
     cx.ex.fs_state_post = Some(fs.verif_state());
     cx.ex.key = state_key(cx, fs, slots);
     cx.ex.boundary_overlay = cx.st.borrow().clone_overlay();
@@ -1548,6 +1556,7 @@ pub fn run(cfg: &Cfg, ops: &[Op], plan: &Plan) -> Exec {
         completed: false,
         tick_ranges: Vec::new(),
         handle_nids: Vec::new(),
+        cursors: [None; crate::model::NFH],
         epoch_end_status: None,
     };
     let mut cx = RunCtx { cfg, ops, plan, st: st.clone(), ctr: ctr.clone(), ex };
